@@ -41,7 +41,7 @@ InitSt == [life |-> [o \in Objs |-> "transient"], pk |-> InitPk, v |-> [o \in Ob
            taint |-> FALSE,     \* set by the misuse Delete(o) of an already deleted object (deviation c); exploration stops there
            \* ghost: nested-transaction reference over the user's calls: refc = committed rows, gd = one delta per open level
            refc |-> EmptyDb, gd |-> <<>>,
-           \* ghost: object whose row was removed by a rollback while it was detached (documented "replacing identity" path)
+           \* outputs of the step (hidden by the VIEW): lifecycle events <<name, object, count>> and number of SQL statements
            ev |-> {}, sql |-> 0]
 R(s, r) == [st |-> s, ret |-> r]
 Ev(s, name, o) == IF <<name, o, 1>> \in s.ev THEN [s EXCEPT !.ev = (@ \ {<<name, o, 1>>}) \cup {<<name, o, 2>>}]
